@@ -7,6 +7,17 @@
 #define MATCH_VALID(m) ((m) == PositionMatch_Equal || (m) == PositionMatch_Less || (m) == PositionMatch_Greater || \
                         (m) == PositionMatch_GreaterOrEqual || (m) == PositionMatch_LessOrEqual)
 
+/* double -> index conversion used by all three arithmetic axes.  2^64 = 18446744073709551616.0 */
+#define TWO64 18446744073709551616.0
+opt_ndsize toIndex(const double value, const bool saturate)
+__CPROVER_requires(nix_exc == EXC_NONE)
+__CPROVER_ensures(/*fits-converted*/ (value >= 0.0 && value < TWO64) ==> (__CPROVER_return_value.has && __CPROVER_return_value.val == (ndsize_t)value))
+__CPROVER_ensures(/*too-large-saturates-when-asked*/ (value >= TWO64 && saturate) ==> (__CPROVER_return_value.has && __CPROVER_return_value.val == ULLONG_MAX))
+__CPROVER_ensures(/*otherwise-no-index*/ !((value >= 0.0 && value < TWO64) || (value >= TWO64 && saturate)) ==> !__CPROVER_return_value.has)
+__CPROVER_ensures(/*no-exception*/ nix_exc == EXC_NONE)
+NIX_CANARY(toIndex) __CPROVER_assigns()
+;
+
 /* ---- integer axes (set / data-frame): x_i = i, i < n or unbounded when n == 0 --------------
    Coordinates are the integers themselves, compared with the double position in the reals.  For
    |p| <= 2^53 the comparison "i <= p" is exact in doubles for i <= 2^53 and trivially false above. */
@@ -149,10 +160,10 @@ __CPROVER_requires(match == SAX_MATCH)
 __CPROVER_requires(position >= (S_OFF) + (SAX_LO) * (S_INT) && position <= (S_OFF) + (SAX_HI) * (S_INT))
 #endif
 #ifndef SAX_SAFETY_ONLY
-__CPROVER_ensures(/*LessOrEqual-exists*/ match == PositionMatch_LessOrEqual ==> (SRV.has <==> SAX(0) <= position))
+__CPROVER_ensures(/*LessOrEqual-exists*/ match == PositionMatch_LessOrEqual ==> ((SRV.has != 0) <==> SAX(0) <= position))
 __CPROVER_ensures(/*LessOrEqual-sound*/ (match == PositionMatch_LessOrEqual && SRV.has) ==> SAX(SRV.val) <= position)
 __CPROVER_ensures(/*LessOrEqual-largest*/ (match == PositionMatch_LessOrEqual && SRV.has) ==> position < SAX(SRV.val + 1))
-__CPROVER_ensures(/*Less-exists*/ match == PositionMatch_Less ==> (SRV.has <==> SAX(0) < position))
+__CPROVER_ensures(/*Less-exists*/ match == PositionMatch_Less ==> ((SRV.has != 0) <==> SAX(0) < position))
 __CPROVER_ensures(/*Less-sound*/ (match == PositionMatch_Less && SRV.has) ==> SAX(SRV.val) < position)
 __CPROVER_ensures(/*Less-largest*/ (match == PositionMatch_Less && SRV.has) ==> position <= SAX(SRV.val + 1))
 __CPROVER_ensures(/*GreaterOrEqual-exists*/ match == PositionMatch_GreaterOrEqual ==> SRV.has)
